@@ -109,14 +109,62 @@ impl KeyG for String {
     }
 }
 
+thread_local! {
+    /// Entry point of the deserialiser: 0 = `from_slice`; 1 =
+    /// `Deserialize::deserialize_in_place` into a graph that already holds
+    /// another document's nodes and an edge (keys 200, 201 / "p", "q", which
+    /// no tested document declares); 2 = `from_reader`.
+    pub static ENTRY: std::cell::Cell<u8> = const { std::cell::Cell::new(0) };
+}
+pub fn entry_text(e: u8) -> &'static str {
+    match e {
+        1 => " [read with deserialize_in_place into a graph already holding another document]",
+        2 => " [read with from_reader]",
+        _ => "",
+    }
+}
+
+macro_rules! read_graph {
+    ($m:ident, $kt:ty, $json:expr, $doc:expr) => {{
+        let g: gdsl::$m::Graph<$kt, i8, i8> = match ENTRY.with(|e| e.get()) {
+            1 => {
+                let strk = std::any::TypeId::of::<$kt>() == std::any::TypeId::of::<String>();
+                let prior = if strk { r#"[[["p",1],["q",2]],[["p","q",5]]]"# } else { "[[[200,1],[201,2]],[[200,201,5]]]" };
+                let mut g: gdsl::$m::Graph<$kt, i8, i8> = serde_json::from_str(prior).map_err(|e| format!("HARNESS-VISIBLE: prior document rejected: {}", e))?;
+                if $json {
+                    let mut de = serde_json::Deserializer::from_slice($doc);
+                    serde::Deserialize::deserialize_in_place(&mut de, &mut g).map_err(|e| e.to_string())?;
+                    de.end().map_err(|e| e.to_string())?;
+                } else {
+                    let mut de = serde_cbor::Deserializer::from_slice($doc);
+                    serde::Deserialize::deserialize_in_place(&mut de, &mut g).map_err(|e| e.to_string())?;
+                    de.end().map_err(|e| e.to_string())?;
+                }
+                g
+            }
+            2 => {
+                if $json {
+                    serde_json::from_reader(std::io::Cursor::new($doc)).map_err(|e| e.to_string())?
+                } else {
+                    serde_cbor::from_reader(std::io::Cursor::new($doc)).map_err(|e| e.to_string())?
+                }
+            }
+            _ => {
+                if $json {
+                    serde_json::from_slice($doc).map_err(|e| e.to_string())?
+                } else {
+                    serde_cbor::from_slice($doc).map_err(|e| e.to_string())?
+                }
+            }
+        };
+        g
+    }};
+}
+
 macro_rules! loader {
     ($name:ident, $m:ident, $kt:ty, directed) => {
         pub fn $name(json: bool, doc: &[u8]) -> Result<Loaded, String> {
-            let g: gdsl::$m::Graph<$kt, i8, i8> = if json {
-                serde_json::from_slice(doc).map_err(|e| e.to_string())?
-            } else {
-                serde_cbor::from_slice(doc).map_err(|e| e.to_string())?
-            };
+            let g = read_graph!($m, $kt, json, doc);
             let mut l = Loaded::default();
             for (k, n) in g.iter() {
                 l.nodes.push((k.g(), *n.value() as i128));
@@ -135,11 +183,7 @@ macro_rules! loader {
     };
     ($name:ident, $m:ident, $kt:ty, undirected) => {
         pub fn $name(json: bool, doc: &[u8]) -> Result<Loaded, String> {
-            let g: gdsl::$m::Graph<$kt, i8, i8> = if json {
-                serde_json::from_slice(doc).map_err(|e| e.to_string())?
-            } else {
-                serde_cbor::from_slice(doc).map_err(|e| e.to_string())?
-            };
+            let g = read_graph!($m, $kt, json, doc);
             let mut l = Loaded::default();
             for (k, n) in g.iter() {
                 l.nodes.push((k.g(), *n.value() as i128));
@@ -643,9 +687,16 @@ impl<'a> Ctx<'a> {
             crate::progress::set_case(|| json!({"kind":"doc","flavour":flavour,"strkeys":strkeys,"json":json,"bytes":bytes,"family":family,"desc":desc}).to_string());
         }
         let (_, directed) = loader_for(flavour, strkeys);
+        for entry in 0..3u8 {
+        ENTRY.with(|e| e.set(entry));
         let (generic, r) = run_one(flavour, strkeys, json, bytes);
+        ENTRY.with(|e| e.set(0));
         self.out.stats.inc("evaluations");
-        self.out.stats.inc(&format!("family_{}", family));
+        if entry == 0 {
+            self.out.stats.inc(&format!("family_{}", family));
+        } else {
+            self.out.stats.inc(if entry == 1 { "entry_deserialize_in_place" } else { "entry_from_reader" });
+        }
         match judge(directed, strkeys, generic.as_ref(), &r) {
             Ok(sig) => {
                 self.out.stats.inc(&format!("outcome_{}", sig));
@@ -663,11 +714,12 @@ impl<'a> Ctx<'a> {
                     engine: "docsweep".into(),
                     flavour: flavour.into(),
                     class: format!("{}/{}", code, family),
-                    what: format!("{} {} document {} ({}): {}", if strkeys { "String-keyed" } else { "u8-keyed" }, if json { "JSON" } else { "CBOR" }, show_bytes(json, bytes), desc, what),
-                    case: json!({"kind":"doc","flavour":flavour,"strkeys":strkeys,"json":json,"bytes":bytes,"family":family,"desc":desc}),
-                    order: bytes.len() as u64,
+                    what: format!("{} {} document {} ({}){}: {}", if strkeys { "String-keyed" } else { "u8-keyed" }, if json { "JSON" } else { "CBOR" }, show_bytes(json, bytes), desc, entry_text(entry), what),
+                    case: json!({"kind":"doc","flavour":flavour,"strkeys":strkeys,"json":json,"bytes":bytes,"family":family,"desc":desc,"entry":entry}),
+                    order: bytes.len() as u64 * 4 + entry as u64,
                 });
             }
+        }
         }
     }
 }
@@ -824,8 +876,11 @@ pub fn replay(prop: &str, case: &Value) -> Vec<Violation> {
     let json = case["json"].as_bool().unwrap();
     let bytes: Vec<u8> = serde_json::from_value(case["bytes"].clone()).unwrap();
     let (_, directed) = loader_for(flavour, strkeys);
+    let entry = case.get("entry").and_then(|v| v.as_u64()).unwrap_or(0) as u8;
+    ENTRY.with(|e| e.set(entry));
     let (generic, r) = run_one(flavour, strkeys, json, &bytes);
-    println!("  document: {}", show_bytes(json, &bytes));
+    ENTRY.with(|e| e.set(0));
+    println!("  document: {}{}", show_bytes(json, &bytes), entry_text(entry));
     println!("  generic reading: {:?}", generic);
     println!("  result: {:?}", r);
     if let Err((code, what)) = judge(directed, strkeys, generic.as_ref(), &r) {
